@@ -293,7 +293,12 @@ func (s *Sim) mutateConf() *ConfSpec {
 			}
 		case 2: // properties
 			q.Props = genProps(r, Profile{Fair: 0.5, PriorityProps: 0.5, Preemption: s.pf.Preemption, QuotaPreempt: s.pf.QuotaPreempt}, q.IsLeaf())
-		case 3, 4, 5: // limits
+		case 3, 4, 5: // limits; or the child template of a parent leaves the configuration
+			if q.Template != nil && !q.IsLeaf() && r.Bool(0.6) {
+				q.Template = nil
+				s.probe("reload_template_dropped")
+				continue
+			}
 			if r.Bool(0.3) {
 				q.Limits = nil
 			} else {
@@ -717,6 +722,27 @@ func (s *Sim) oracleC16(op Op, evs []SIEvent) {
 			}
 			if q.MaxApps != spec.MaxApps {
 				s.violate("C16", "queue-maxapps", "", "queue %s reports max applications %d, the active configuration says %d", path, q.MaxApps, spec.MaxApps)
+			}
+		}
+		// the child template is part of what the configuration defines for a parent
+		if !spec.IsLeaf() {
+			// (a parent created under a parent that has a template starts with that one: not stale)
+			inherited := false
+			if q.Template != nil {
+				for _, ap := range ancestors(path) {
+					if aq := p.Queues[ap]; ap != path && aq != nil && aq.Template != nil && fmt.Sprintf("%+v", *aq.Template) == fmt.Sprintf("%+v", *q.Template) {
+						inherited = true
+					}
+				}
+			}
+			if spec.Template == nil && q.Template != nil && !inherited {
+				s.violate("C16", "queue-template-stale", "", "queue %s reports a child template (%+v), the active configuration gives it none", path, *q.Template)
+			}
+			if spec.Template != nil && spec.Template.MaxApps > 0 {
+				s.probe("template_checked")
+				if q.Template == nil || q.Template.MaxApplications != spec.Template.MaxApps {
+					s.violate("C16", "queue-template", "maxapps", "queue %s reports child template %+v, the active configuration says max applications %d", path, q.Template, spec.Template.MaxApps)
+				}
 			}
 		}
 		if q.Leaf != (spec.IsLeaf() && len(spec.Children) == 0) {
